@@ -100,7 +100,7 @@ def run_drive(sub, job, wd, profile="release", timeout=1800, crate=HARNESS, env=
 
 # ----------------------------------------------------------------------------- TLC
 def _tlc_cmd(module, cfg, metadir, workers, extra):
-    return ["java", "-XX:+UseParallelGC", "-Xss1g", "-cp", TLA_CP + ":" + SPEC + ":" + os.path.dirname(module),
+    return ["java", "-XX:+UseParallelGC", "-XX:ParallelGCThreads=%d" % (2 if workers <= 2 else 8), "-Xss1g", "-cp", TLA_CP + ":" + SPEC + ":" + os.path.dirname(module),
             "tlc2.TLC", "-workers", str(workers), "-noGenerateSpecTE", "-metadir", metadir, "-cleanup",
             "-config", cfg] + extra + [module]
 
@@ -112,9 +112,9 @@ def tlc(module, cfg, wd, workers=1, env=None, timeout=1800, extra=None, deque=Fa
     """Runs TLC; returns dict(out, generated, distinct, errors)."""
     md = os.path.join(wd, "states_" + hashlib.md5((module + cfg + json.dumps(env or {}, sort_keys=True)).encode()).hexdigest()[:10])
     cmd = _tlc_cmd(module, cfg, md, workers, extra or [])
-    cmd.insert(3, "-Xmx" + xmx)
+    cmd.insert(4, "-Xmx" + xmx)
     if deque:
-        cmd.insert(3, "-Dtlc2.tool.queue.IStateQueue=StateDeque")
+        cmd.insert(4, "-Dtlc2.tool.queue.IStateQueue=StateDeque")
     e = dict(os.environ)
     e.pop("JAVA_TOOL_OPTIONS", None)
     if env:
@@ -154,10 +154,52 @@ def expect_model_violation(module, cfg, wd, workers=1, timeout=600, what=""):
 _TUPLE = re.compile(r'^<<"(GEN|REJECT|REPLAY|NOTE|DRIFT|TRACE-DONE|TRACE-INCOMPLETE|STAT)"')
 
 
+def tlc_tuples(out):
+    """All tuples TLC printed (PrintT), with multi-line pretty-printing undone: one string per tuple."""
+    res = []
+    cur = None
+    depth = 0
+    for ln in out.splitlines():
+        st = ln.strip()
+        if cur is None:
+            if not st.startswith("<<"):
+                continue
+            cur = []
+            depth = 0
+        cur.append(st)
+        # bracket depth outside string literals
+        i = 0
+        instr = False
+        while i < len(st):
+            c = st[i]
+            if instr:
+                if c == "\\":
+                    i += 1
+                elif c == '"':
+                    instr = False
+            else:
+                if c == '"':
+                    instr = True
+                elif st.startswith("<<", i):
+                    depth += 1
+                    i += 1
+                elif st.startswith(">>", i):
+                    depth -= 1
+                    i += 1
+            i += 1
+        if depth <= 0:
+            joined = " ".join(cur)
+            joined = re.sub(r"<< ", "<<", joined)
+            joined = re.sub(r" >>", ">>", joined)
+            res.append(joined)
+            cur = None
+    return res
+
+
 def tlc_lines(out, tag):
-    """TLC prints tuples as <<"TAG", ...>>; returns the raw lines for a tag."""
+    """TLC prints tuples as <<"TAG", ...>> (possibly wrapped over several lines); returns them one per string."""
     pre = '<<"%s"' % tag
-    return [ln for ln in out.splitlines() if ln.startswith(pre)]
+    return [t for t in tlc_tuples(out) if t.startswith(pre)]
 
 
 def parse_tlc_string(tok):
